@@ -87,6 +87,8 @@ std::vector<double> GenerateStochasticDistribution (std::vector<double> mesh_x, 
       }
     }
 
+  std::vector<double> real_tot_species = tot_species; // un-floored totals, used to draw cells in step 5
+
   for(int i=0; i<n_species; i++)
     {
     tot_species[i] = std::floor(tot_species[i]);
@@ -141,7 +143,7 @@ std::vector<double> GenerateStochasticDistribution (std::vector<double> mesh_x, 
       {
       if(verif_loop_cap > 0 && ++verif_loop_count > verif_loop_cap) {verif_status |= 1; break;} // verification hook
       double cumul = 0;
-      double target = uiud(rng) * tot_species[s];
+      double target = uiud(rng) * real_tot_species[s]; // over the whole real-valued mass, so that every populated cell can be drawn
 
       for(int i=0; i<n_meshes; i++)
         {
